@@ -165,7 +165,7 @@ func returnNud(p *parser, t *token) *token {
 }
 
 func callLed(p *parser, t *token, left *token) *token {
-	call := symAtPos(p.Token.Pos, "call")
+	call := symAtPos(t.Pos, "call") // the "(": on the line of the callee even when the arguments start on the next one
 	call.Append(left)
 	arguments := symAtPos(p.Token.Pos, "arguments")
 	call.Append(arguments)
